@@ -93,6 +93,9 @@ def jobs(tier):
         [['bypassed', 151], ['normal_veto', 150], ['lost_waiting', 160]],
         [['moved_twice', 128], ['bypassed', 151], ['wait_veto', 160]],
         [['bypassed', 0x20], ['moved_lost_waiting', 128]],
+        [['bypassed_moved', 128]],
+        [['bypassed_cannot', 140], ['bypassed_moved', 128], ['bypassed', 0x20]],
+        [['bypassed', 0x20], ['bypassed_lost_waiting', 128]],
     ]
     if tier != 'quick':
         cfgs += [[[a, 128], [c, 20], [b, 140]] for a in ('normal_veto', 'cannot_claim', 'moved', 'moved_twice') for c in ('normal_immediate', 'bypassed', 'not_started') for b in ('wait_veto', 'bypassed', 'not_started', 'lost_waiting', 'moved_lost_waiting')]
@@ -113,5 +116,5 @@ def meta(tier):
                    'requester with an address (0x10) and without one (only the address-claim request may be sent, from 254)',
                    '1..3 responder CAs on one stack in the claim histories listed in jobs()', 'J1939-21; first argument of send_request fixed to 0'],
         'outside': ['send_request(1, ...) (emits a different PGN, not a request)', 'J1939-22'],
-        'assumptions': ['transitional claim histories (wait_veto, lost_waiting, moved_lost_waiting) are set up last and the request is observed for 20 ms, i.e. before the state changes', 'address held by a CA is derived from its claim history (contending claims injected by the harness), not from the CA object'],
+        'assumptions': ['transitional claim histories (wait_veto, lost_waiting, moved_lost_waiting, bypassed_lost_waiting) are set up last and the request is observed for 20 ms, i.e. before the state changes', 'address held by a CA is derived from its claim history (contending claims injected by the harness), not from the CA object'],
     }
